@@ -300,6 +300,59 @@ func ruleBitList(c *Ctx) {
 			}
 		}
 		if len(calls) != 1 {
+			// the loop may live in an unexported helper shared by AddByte and AddBits: the bit number q that
+			// is tested runs from the top index down to 0, whatever the helper's own loop variable does
+			sites := c.P.deepCallsTo(fn, addBit)
+			if len(sites) == 1 && len(sites[0].Path) > 0 {
+				site := sites[0]
+				call := site.Ins.(*ssa.Call)
+				n.Ctx = site.Path
+				var bitV ssa.Value
+				if el := variadicElems(call.Common().Args[1]); len(el) == 1 {
+					bitV = el[0]
+				}
+				var shift ssa.Value
+				var findShift func(v ssa.Value, d int)
+				findShift = func(v ssa.Value, d int) {
+					if d > 6 || shift != nil {
+						return
+					}
+					switch x := v.(type) {
+					case *ssa.BinOp:
+						if x.Op == token.SHR {
+							shift = x.Y
+							return
+						}
+						findShift(x.X, d+1)
+						findShift(x.Y, d+1)
+					case *ssa.Convert:
+						findShift(x.X, d+1)
+					}
+				}
+				if bitV != nil {
+					findShift(bitV, 0)
+				}
+				hdr := enclosingLoopHeader(call.Block())
+				if bitV == nil || shift == nil || hdr == nil {
+					c.Undecided(R3, "utils.(*BitList)."+m.name+"/loop", call.Pos(), "no bit test of the form (v >> q) & 1 in a loop")
+					continue
+				}
+				if cv, ok := shift.(*ssa.Convert); ok {
+					shift = cv.X
+				}
+				first, step, while, okR := reindexLoop(n, hdr, shift)
+				if !okR {
+					c.Undecided(R3, "utils.(*BitList)."+m.name+"/loop", call.Pos(), "bit number is not an affine function of the loop variable")
+					continue
+				}
+				c.Check(R3, "utils.(*BitList)."+m.name+"/start", call.Pos(), pEqual(first, MustRef(m.top)), m.top, first.String())
+				c.Check(R3, "utils.(*BitList)."+m.name+"/step", call.Pos(), pEqual(step, pConst(-1)), "i - 1", step.String())
+				c.expectCondC(R3, "utils.(*BitList)."+m.name+"/while", call.Pos(), while, MustRefCond("q >= 0"))
+				c.expectCond(R3, "utils.(*BitList)."+m.name+"/bit", call.Pos(), n.CondOf(bitV), "And(1, Shr(b, q)) == 1")
+				n.env = n.env[:len(n.env)-1]
+				n.Ctx = nil
+				continue
+			}
 			c.Check(R3, "utils.(*BitList)."+m.name+"/shape", fn.Pos(), false, "one AddBit call in a loop", fmt.Sprint(len(calls)))
 			continue
 		}
@@ -421,7 +474,13 @@ func ruleBitList(c *Ctx) {
 					}
 				}
 				if phi == nil {
-					c.expectPoly(R3, "utils.NewBitList/words", mk.Pos(), n, mk.Len, "(capacity + 31)/32")
+					// a closed form, or the word count delivered by a helper
+					cases := n.valueCases(fn, nil, mk.Len, 0)
+					if len(cases) <= 1 {
+						c.expectPoly(R3, "utils.NewBitList/words", mk.Pos(), n, mk.Len, "(capacity + 31)/32")
+					} else {
+						checkCases(c, R3, "utils.NewBitList/words", mk.Pos(), cases, []edgeSpec{{"capacity/32", "capacity % 32 == 0"}, {"capacity/32 + 1", "capacity % 32 != 0"}})
+					}
 					continue
 				}
 				for ei := range phi.Edges {
